@@ -173,6 +173,7 @@ class SymEnv:
                 ctx.positive_vars.discard(last_var)
                 a2[idx + (len(lane) - 1,)] = Val("lin", last)
                 ctx.assumptions.append(T.and_(T.gt(last, T.ZERO), T.lt(last, T.ONE)))
+                ctx.positive_terms.add(last.id)
         self.penv.leaves[p] = arr
         return arr
 
@@ -433,6 +434,8 @@ class Session:
                 mp = {s: T.const(v) for s, v in zip(fin, assign)}
                 (g2,) = T.substitute([goal], mp)
                 if g2 is T.TRUE:
+                    continue
+                if g2.op in ("le", "lt") and g2.args[0] is T.ZERO and self.ctx.is_pos(g2.args[1]):
                     continue
                 self.case_splits += 1
                 if self.q.identity(g2, 20000):
